@@ -165,7 +165,7 @@ class Spec:
         return list(INVARIANTS[name](c))
 
     def any_types(self):
-        return [T_QTY, ("obj", "Level"), ("obj", "Measurement"), T_UNIT, T_PFX, T_DIM, ("num",), ("other",)]
+        return [T_QTY, ("obj", "Level"), ("obj", "Measurement"), T_UNIT, T_PFX, T_DIM, ("int",), ("other",)]
 
     def applicable(self, K, a):
         f = getattr(K, "applicable", None)
@@ -317,6 +317,9 @@ INVARIANTS["I_U"] = I_U
 # sizes (C04-C06, C11): ghost real-valued size of a unit, multiplicative in the prefix
 
 bsize = z3.Function("bsize", sort_of(T_FMAP), R)  # size of the unprefixed product of base units (ghost, > 0)
+# ghost: the planner finds no conversion between units with these factor maps (the prefix never matters:
+# convert() strips it first).  Deterministic given the declared equivalences (C08).
+noconv = z3.Function("noconv", sort_of(T_FMAP), sort_of(T_FMAP), B)
 offset_free_m = z3.Function("offset_free_m", sort_of(T_FMAP), B)  # ghost: no factor is a scale with a zero offset (C10)
 
 
@@ -332,6 +335,6 @@ def size(c, u_ref):
 def size_axioms():
     m = z3.Const("m!sz", sort_of(T_FMAP))
     b, e = z3.Real("b!sz"), z3.Real("e!sz")
-    return [z3.ForAll([m], bsize(m) > 0),
+    return [z3.ForAll([m], bsize(m) > 0), z3.ForAll([m], z3.Not(noconv(m, m))),
             z3.ForAll([b, e], z3.Implies(b > 0, rpowr(b, e) > 0)),
             z3.ForAll([b], rpowr(b, z3.RealVal(0)) == 1)]
